@@ -319,7 +319,57 @@ type ConcCall struct {
 	Start int64  `json:"start"`
 	End   int64  `json:"end"`
 	Ret   uint64 `json:"ret"`
-	Sent  bool   `json:"sent"`
+	Sent  bool   `json:"sent"` // a counter was returned
+	Key   int    `json:"key"`  // requests: which request (identical requests share the key); 0 otherwise
+}
+
+// senderForced: one call parked at the hook point after it drew its counter (a withheld duplicate request draws none
+// and is never parked), another call run meanwhile, a third one afterwards; one round per kind of parked call
+func senderForced(enc *json.Encoder) {
+	dst := sAddr("d:peer", 1, 1)
+	cmd := model.CmdType{LoadControlLimitListData: &model.LoadControlLimitListDataType{}}
+	for _, holder := range []string{"duprequest", "request", "notify", "write"} {
+		s := newSenderSUT()
+		var calls []ConcCall
+		rec := func(kind string, key int, start, end int64, ctr *model.MsgCounterType) {
+			c := ConcCall{G: len(calls), Kind: kind, Key: key, Start: start, End: end}
+			if ctr != nil {
+				c.Ret, c.Sent = uint64(*ctr), true
+			}
+			calls = append(calls, c)
+		}
+		c0, _ := s.snd.Request(model.CmdClassifierTypeRead, s.src, dst, false, []model.CmdType{readCmd(1)})
+		rec("request", 1, 1, 2, c0)
+		sched := NewSched()
+		var hc *model.MsgCounterType
+		hk, hkey := holder, 0
+		sched.Add("H", []string{"Sender.counter"}, func() {
+			switch holder {
+			case "duprequest":
+				hk, hkey = "request", 1
+				hc, _ = s.snd.Request(model.CmdClassifierTypeRead, s.src, dst, false, []model.CmdType{readCmd(1)})
+			case "request":
+				hkey = 2
+				hc, _ = s.snd.Request(model.CmdClassifierTypeRead, s.src, dst, false, []model.CmdType{readCmd(2)})
+			case "notify":
+				hc, _ = s.snd.Notify(s.src, dst, cmd)
+			case "write":
+				hc, _ = s.snd.Write(s.src, dst, cmd)
+			}
+		})
+		sched.Step("H")
+		c1, _ := s.snd.Notify(s.src, dst, cmd)
+		sched.Drain()
+		sched.Close()
+		rec(hk, hkey, 3, 8, hc)
+		rec("notify", 0, 4, 5, c1)
+		c2, _ := s.snd.Notify(s.src, dst, cmd)
+		rec("notify", 0, 9, 10, c2)
+		c3, _ := s.snd.Write(s.src, dst, cmd)
+		rec("write", 0, 11, 12, c3)
+		wire, _ := s.wire()
+		must(enc.Encode(map[string]any{"calls": calls, "wire": wire, "forced": holder}))
+	}
 }
 
 func senderStress(args []string) {
@@ -334,6 +384,7 @@ func senderStress(args []string) {
 	must(err)
 	defer out.Close()
 	enc := json.NewEncoder(out)
+	senderForced(enc)
 	for r := 0; r < *rounds; r++ {
 		s := newSenderSUT()
 		var seq int64
@@ -354,8 +405,13 @@ func senderStress(args []string) {
 					switch rnd.Intn(5) {
 					case 0:
 						c.Kind = "request"
-						// distinct per goroutine and call: always sent
-						ctr, _ = s.snd.Request(model.CmdClassifierTypeRead, s.src, dst, false, []model.CmdType{readCmd(g*100000 + r*1000 + i)})
+						// distinct per goroutine and call (always sent), or one of three requests all goroutines repeat
+						// (withheld while an identical one is unanswered: the earlier counter is returned)
+						c.Key = g*100000 + r*1000 + i + 10
+						if rnd.Intn(2) == 0 {
+							c.Key = 1 + rnd.Intn(3)
+						}
+						ctr, _ = s.snd.Request(model.CmdClassifierTypeRead, s.src, dst, false, []model.CmdType{readCmd(c.Key)})
 					case 1:
 						c.Kind = "notify"
 						ctr, _ = s.snd.Notify(s.src, dst, cmd)
